@@ -391,7 +391,8 @@ def harnesses(tier):
 
 
 EXPECT = ["C04.building_a_chain_leaves_the_callers_model_untouched", "C04.mu_h_is_rate_weighted_state_sum", "C04.chain_mean_equals_truncated_process_mean", "C04.no_variance_added_for_finite_variation",
-          "C04.small_jump_variance_added_for_infinite_variation", "C04.copula_margin_mean"]
+          "C04.small_jump_variance_added_for_infinite_variation", "C04.copula_margin_mean",
+          "C04.copula.small_jump_covariance_added_to_squared_diffusion"]
 
 
 # reference replays run when the symbolic run of a harness ends in an exception of the code under analysis (see runner.run_check)
